@@ -633,5 +633,6 @@ CLAIM = {
             "Not decided: exhaustive request sequences, library determinism. Known finding: unseeded PIT randomisation.",
     "technique": "static analysis: alias/effect abstract domain over symbolic values (copy vs view: index arrays copy, slices and helpers that may "
                  "return slices give views), mutation summaries, intra-procedural alias taint, "
-                 "key-completeness and dunder-consistency lint, seed-dominance, who-may-access",
+                 "key-completeness and dunder-consistency lint, class-exact equality of the classes inside cache keys (folded __eq__ implies "
+                 "self.__class__ == other.__class__, truth table), seed-dominance, who-may-access",
 }
